@@ -209,8 +209,12 @@ def pieces_of(spec, lo, hi):
     return e_qp.pwl_pieces(spec[1], lo, hi)
 
 
-DEFECTS = ("even_order_sign_flip", "mixed_pwl_poly_drops_c0_and_q", "cost_on_fixed_element_dropped",
-           "nonconvex_pwl_max_of_segments", "dcline_pwl_q_opposite_sign", "cq0_only_dropped")
+# order = preference of `explain` among equally small explanations: models of recorded OPEN defects first, the model of the
+# repaired defect (even_order_sign_flip, fixed in 0eea9884b) last - in a mixed pwl+poly problem "cp0 of a storage entry dropped"
+# and "cp0 of a storage entry negated" can give the same number, and only the former exists in the code now; a return of the sign
+# defect is still reported by every unmixed case, where no other model reproduces it
+DEFECTS = ("mixed_pwl_poly_drops_c0_and_q", "cost_on_fixed_element_dropped",
+           "nonconvex_pwl_max_of_segments", "dcline_pwl_q_opposite_sign", "cq0_only_dropped", "even_order_sign_flip")
 
 
 def is_variable(net, tab, i):
@@ -331,9 +335,12 @@ def explain(net, dc, rc, uc, rtol, scale=1.):
     for r in range(1, len(DEFECTS) + 1):
         for ms in itertools.combinations(DEFECTS, r):
             pc, _ = user_cost(net, dc, ms)
-            if _close(rc, pc, rtol, scale) and not _close(pc, uc, rtol, scale):
+            # (rc is not close to uc here, so a model set that reproduces rc necessarily changes the value; demanding that the
+            # change alone exceeds the tolerance would reject a recorded defect whose effect is just below it while effect + solver
+            # inaccuracy is just above)
+            if _close(rc, pc, rtol, scale) and pc != uc:
                 # every model in the set must matter
-                if all(not _close(user_cost(net, dc, tuple(m for m in ms if m != d))[0], pc, rtol, scale) for d in ms):
+                if all(user_cost(net, dc, tuple(m for m in ms if m != d))[0] != pc for d in ms):
                     return ms
     return ()
 
